@@ -183,13 +183,15 @@ def package(spec, rec, verdicts, errors, wall):
             s = cur.pop(e[1])
             paths['convert' if 'xform' in s else 'locked-hit' if 'acq' in s else 'fast-hit'] += 1
     outcomes = [[r['outcome'] for r in rec.requests.get(t, [])] for t in range(nthreads)]
+    not_inst = [[t, j] for t in range(nthreads) for j, r in enumerate(rec.requests.get(t, []))
+                if r['outcome'] == 'ok' and not r.get('ret_is_inst')]
     paths['error'] = sum(1 for os_ in outcomes for o in os_ if o != 'ok')
     keys = {}
     for t in range(nthreads):
         for r in rec.requests.get(t, []):
             keys.setdefault((r['val'], r['opt']), set()).add((t, r['env']))
     return {'spec': spec, 'progs': progs, 'events': evs, 'verdicts': verdicts, 'errors': errors,
-            'unexpected': rec.unexpected[:5], 'outcomes': outcomes,
+            'unexpected': rec.unexpected[:5], 'outcomes': outcomes, 'not_inst': not_inst[:5],
             'xcount': [[k[0], [k[1][0], k[1][1], k[1][2], list(k[1][3])], v] for k, v in sorted(rec.xcount.items())],
             'paths': paths, 'gc_events': sum(1 for e in rec.events if e[0] == 'gc'),
             'addr_reuse': rec.addr_reuse, 'nreq': sum(len(p) for p in progs),
@@ -289,6 +291,8 @@ WITNESSES = {
 
 
 def _pool_run(spec):
+    import logging
+    logging.disable(logging.WARNING)        # malt's "could not transform ... will run it as-is" chatter
     try:
         if 'witness' in spec:
             return run_witness(spec['witness'])
@@ -345,6 +349,8 @@ def analyse(run, res, answer):
         detail = 'history %s: operation outside the model: %s' % (hid, res['unexpected'][:3])
     eq_ids, split = py_classes(res)
     corr = []
+    if res.get('not_inst'):
+        corr.append('requests %s returned something else than what factory.instantiate(own environment) returned' % res['not_inst'])
     outcome_of = {}
     if lean is not None:
         l_eq = sorted(int(x) for x in lean.get('equal-code-ids', []))
@@ -380,8 +386,8 @@ def analyse(run, res, answer):
                 cls = CLS_EQ
         elif o is not None and o[0] == 'err':
             cls = CLS_EQ if int(o[1]) in eq_ids else None
-        elif lean is None and not run.driver_ok:
-            # no driver: Python fallback of the same predicates (history-level)
+        elif lean is None:
+            # log rejected / no driver: Python fallback of the same predicates (history-level)
             prog = res['progs'][v['thread']] if v.get('thread', -1) < len(res['progs']) and v.get('thread', -1) >= 0 else []
             if 0 <= v.get('req_pos', -1) < len(prog):
                 cid, val = prog[v['req_pos']][0], prog[v['req_pos']][1]
